@@ -912,6 +912,9 @@ def run(prog, rep, tier):
     rep.rule('VALUE-dead', 'no result of a call is bound to a local that is never read (reaching '
              'definitions)')
     check_dead_computations(prog, rep, ['tenpy/algorithms/tebd.py', 'tenpy/algorithms/tdvp.py', 'tenpy/algorithms/mpo_evolution.py', 'tenpy/algorithms/algorithm.py'])
+    from ..flow import check_undefined_attrs
+    rep.rule('ATTR-defined', 'every self.X read names an attribute bound somewhere in the class family')
+    check_undefined_attrs(prog, rep, ['tenpy/algorithms/tebd.py', 'tenpy/algorithms/tdvp.py', 'tenpy/algorithms/mpo_evolution.py', 'tenpy/algorithms/algorithm.py'])
     return rep.finish(
         level='other',
         explanation='Accounting clauses of C14 decided statically: class-by-class count of '
